@@ -4,7 +4,11 @@ from corr import level2_family
 RULE = ("seeded random calls getB(entries, sensors) on CustomSources with integer affine field functions (shared function "
         "objects form multi-member groups): 1-4 entries, collections nested ≤2 with 1-3 children, duplicate objects, path "
         "lengths 1-4, octahedral orientations; 1-3 sensors with unit/static/rotating paths, pixel None/(3,)/(n,3)/(n1,n2,3), "
-        "handedness; pixel_agg none/sum/min/max incl. mixed pixel shapes; sumup; squeeze. distinct = distinct output tensors")
+        "handedness; pixel_agg none/sum/min/max incl. mixed pixel shapes; sumup; squeeze. distinct = distinct output tensors. "
+        "A fifth of the cases is forced order-sensitive (min / max over a rotated or left-handed sensor with >= 2 distinct pixels; an object "
+        "whose multi-step path is shorter than the longest one). Stream level2f: the same scenes with pixel_agg = median / std / mean / ptp / "
+        "min / max / sum against the polymorphic model evaluated in IEEE double (getBHF with Model/PixelAgg), 90 % forced order-sensitive, "
+        "values compared with relative tolerance 1e-9, ndarray and dataframe output")
 
 
 def run(ctx, oracle_fn, n_quick, n_thorough, not_shown):
@@ -16,6 +20,11 @@ def run(ctx, oracle_fn, n_quick, n_thorough, not_shown):
         ctx.cov["traces_validated_against_impl"] = st["cases"]
         ctx.cov["samples"] = st.pop("samples") or [{"note": "all sampled outputs were longer than 400 chars"}]
         ctx.cov["correspondence"] = st
+        # c03post: pixel_agg as ANY numpy reduction (median, std, mean, ptp, ...), the post-processing order and edge padding of short
+        # paths: Model/Level2.getBHF / dataframeF at Float against the real getB
+        sf = level2_family.run_f_stream(ctx, ctx.scale(150, 4000))
+        ctx.cov["traces_validated_against_impl"] += sf["cases"]
+        ctx.cov["correspondence_level2f"] = sf
     else:
         ctx.cov["correspondence"] = "driver did not build"
     budget = 10 if len(ctx.broken) else 1
